@@ -172,6 +172,13 @@ func (p *Parser) Parse(formatOnly bool) (*bytes.Buffer, int) {
 	// now that the file was parsed, we replace all definitions
 	if len(p.variables) > 0 {
 		p.dest = expandDefinitions(p.dest, p.variables)
+		// prefix and suffix lines are kept outside of the buffer, expand them as well
+		for i, prefix := range p.Prefixes {
+			p.Prefixes[i] = expandDefinitions(bytes.NewBufferString(prefix), p.variables).String()
+		}
+		for i, suffix := range p.Suffixes {
+			p.Suffixes[i] = expandDefinitions(bytes.NewBufferString(suffix), p.variables).String()
+		}
 	}
 	return p.dest, wrote
 }
